@@ -561,7 +561,12 @@ fits.PrimaryHDU(img, header=hdr).writeto(fn, overwrite=True)
 try:
     out = BANE.filter_image(fn, None, step_size=(cfg['step'], cfg['step']), box_size=(cfg['step'] * 3, cfg['step'] * 3), cores=cfg['cores'], nslice=cfg['nslice'], mask=cfg.get('mask', True))
     ok = out is not None and np.all(np.isfinite(out[0][1:, 1:]))
-    res = 'RESULT returned finite=%s' % ok
+    # every output pixel was written: unit Gaussian noise cannot give a noise map below 0.1 anywhere (unwritten rows stay 0)
+    if ok and not cfg.get('nanpatch') and not np.all(out[1][1:, 1:] > 0.1):
+        bad_rows = sorted(set(int(r) + 1 for r in np.where(~(out[1][1:, 1:] > 0.1))[0]))
+        res = 'RESULT returned unwritten-rows=%s' % bad_rows[:6]
+    else:
+        res = 'RESULT returned finite=%s' % ok
 except BaseException as e:
     res = 'RESULT raised %s: %s' % (type(e).__name__, str(e).replace('\n', ' ')[-200:])
 # segments of THIS run still present while the calling process is alive (the property: released when the call returns or raises)
@@ -643,6 +648,8 @@ def replay_run(w):
         return True, 'segment-leak', 'shared memory left behind: %s' % r['leaked']
     if 'raised' in r['result']:
         return True, 'raises', r['result']
+    if 'unwritten-rows' in r['result']:
+        return True, 'rows-not-written', 'filter_image(rows=%d, cores=%d, nslice=%d, grid=%d): %s (noise map 0 there for unit Gaussian noise)' % (cfg['H'], cfg['cores'], cfg['nslice'], cfg['step'], r['result'])
     return False, None, r['result']
 
 
@@ -811,7 +818,8 @@ def k_real_runs(rep):
     rep.kernel('K-replay-oracle', functions=[F + ':filter_image'], bounds='real runs under a watchdog: 6 layouts (incl. stripes > cores and realised stripes > requested), 3 fault points',
                assumes=['these are concrete executions (validation of the model and replay oracle), not solver verdicts'])
     for cfg in (dict(H=101, nslice=2, cores=2, step=4), dict(H=64, nslice=4, cores=2, step=4), dict(H=40, nslice=1, cores=1, step=4), dict(H=33, nslice=3, cores=3, step=8),
-                dict(H=7, nslice=2, cores=2, step=4), dict(H=50, nslice=6, cores=3, step=2), dict(H=64, nslice=4, cores=4, step=4, nanpatch=True)):
+                dict(H=7, nslice=2, cores=2, step=4), dict(H=50, nslice=6, cores=3, step=2), dict(H=64, nslice=4, cores=4, step=4, nanpatch=True),
+                dict(H=49, nslice=3, cores=3, step=4), dict(H=100, nslice=3, cores=3, step=4)):
         bad, cls, detail = replay_run(dict(cfg))
         rep.validated_runs(1)
         if bad:
